@@ -1515,6 +1515,7 @@ _BUILTINS = {
     'str': lambda x: UNKNOWN if (x is UNKNOWN or x is ERR or isinstance(x, (Opaque, Obj))) else str(x),
     'int': lambda x: UNKNOWN if x is UNKNOWN else int(x),
     'float': lambda x: UNKNOWN if x is UNKNOWN else float(x),
+    'repr': lambda x: UNKNOWN if (x is UNKNOWN or x is ERR or isinstance(x, (Opaque, Obj))) else repr(x),
 }
 
 
